@@ -13,11 +13,15 @@ from ..core import Part
 
 RULE = ('mutate: valid rendered specs hit by 1-3 token-level edits (delete/duplicate/swap/replace/'
         'insert token, literal kind, indentation shift, truncate, stray character, line dup/del, '
-        'splice of two specs); non-trivial = text differs from the original and gets past the lexer; '
+        'splice of two specs; and meaning-level edits: rename an identifier to another one of the file, append a '
+        'default, wrap a type in List / Map / ? / arguments, add a doc reference of any kind to any name, '
+        'replace the value after `=`, make aliases refer to themselves through containers); non-trivial = text differs from the original and gets past the lexer; '
         'distinct by text hash. short: every string over a 28-token alphabet up to the tier length '
         'after a `namespace x` header (exhaustive; fast pre-filter re-validated through specs_to_ir). '
         'inject: the C01 rule-violation corpus. langref: literal blocks of docs/lang_ref.rst. '
         'cli: python -m stone.cli on a sample.')
+TECHNIQUE = ('property-based testing (Hypothesis) plus exhaustive enumeration of short token strings; thorough tier adds '
+             'coverage-guided fuzzing (Atheris / libFuzzer) of the frontend with the oracle inside the target')
 ASSUMPTIONS = ['A 20 s alarm (re-confirmed at 60 s) stands for non-termination.',
                'The short-string pre-filter reuses one ParserFactory (documented get_parser() reuse) '
                'with error lists reset by the harness; every candidate is re-validated through the '
